@@ -188,6 +188,9 @@ PacketChecksObj(m, m1, p, t) ==
     <<"C08", "esi-not-increasing-within-block", p.esi > last, <<o, p.sbn, p.esi, last>> >>,
     <<"C08", "symbol-outside-partition",
         IF empty THEN p.sbn = 0 /\ p.esi = 0 ELSE p.sbn < nb /\ p.esi < kb + Par(m, o), <<o, p.sbn, p.esi, nb, kb>> >>,
+    \* FEC 129 carries the source block length in the payload id: it must be the length of that block in the partition
+    <<"C08", "source-block-length-field-differs-from-the-partition",
+        empty \/ p.sbl < 0 \/ p.sbn >= nb \/ p.sbl = kb, <<o, p.sbn, p.sbl, kb>> >>,
     <<"C08", "source-payload-is-not-the-rfc-slice",
         IF src THEN /\ p.off = SymOffset(L, E, B, p.sbn, p.esi)
                     /\ p.got \in {p.exp, p.expp}
